@@ -711,6 +711,7 @@ def run(repo, chk):
     outs = [x for x in ex.run(aed) if not x.raised]
     okavg, okcat, okmean, found_avg = bool(outs), bool(outs), bool(outs), None
     terms = []          # (value, guarded, pattern variable bound by iterating wn.patterns())
+    left_out = []
     consts_ok = bool(outs)
     for o in outs:
         cs_ = ev_calls(o, "expected_demand")
@@ -762,6 +763,46 @@ def run(repo, chk):
                             guarded = True          # the path cannot be taken by a pattern of length 0
             terms.append((val, guarded, var[0] if var else None))
         consts_ok = consts_ok and cons == [24 * 3600]
+        # every non-empty pattern of the model contributes: on each way through the loop over wn.patterns(), the conditions that mention the loop's variables may
+        # only separate empty from non-empty patterns -- a path that appends a term must be open to every non-empty pattern, a path that appends none
+        # must be impossible for a non-empty pattern
+        lvs = {}
+        for ev_ in o.events:
+            if ev_[0] == "loop":
+                for nm, i, it in loop_vars([(ev_[1], ev_[2])]):
+                    if it == "wn.patterns()":
+                        lvs[nm] = i
+        for item in lst:
+            if isinstance(item, Comp):
+                for nm, i, it in loop_vars([(item.target, item.iter)]):
+                    if it == "wn.patterns()":
+                        lvs[nm] = i
+        pat_terms = [item for item in lst if not isinstance(item, (int, float, sp.Number))]
+
+        def about_loop(t):
+            return any(re.search(r"(?<![\w.])%s\b" % re.escape(nm), t) for nm in lvs)
+
+        def length_only(t, v, pvar):
+            ln = "len(%s.multipliers)" % pvar
+            return ln in t and all(tv_env(t, {ln: k}) == bool(v) for k in (1, 2, 7, 24))
+        pvar_ = [nm for nm, i in lvs.items() if i == 1]
+        if lvs and pvar_:
+            for item in (pat_terms or [None]):
+                cnds = [(c, True) for c in item.conds] if isinstance(item, Comp) else [(t, v) for t, v in o.conds if about_loop(t)]
+                if item is None:
+                    # no term on this path: some condition must exclude every non-empty pattern
+                    ln = "len(%s.multipliers)" % pvar_[0]
+                    shut = any(ln in t and all(tv_env(t, {ln: k}) not in (None, bool(v)) for k in (1, 2, 7, 24)) for t, v in cnds)
+                    if cnds and not shut:
+                        left_out.append("a pattern is skipped when %s" % " and ".join(("" if v else "not ") + "(%s)" % t for t, v in cnds))
+                else:
+                    extra = [(t, v) for t, v in cnds if not length_only(t, v, pvar_[0])]
+                    if extra:
+                        left_out.append("a pattern counts only when %s" % " and ".join(("" if v else "not ") + "(%s)" % t for t, v in extra))
+    chk.expect(not left_out and bool(outs), "R-C20-2", "every non-empty pattern of the model enters the common period", loc(aed),
+               "the averaging window must be a whole number of periods of every pattern that can shape a demand; usage records are not a complete account of that (default pattern, "
+               "TimeSeries re-pointed directly), so no filter other than `the pattern has multipliers` may decide which patterns count", expected="no condition on the loop over wn.patterns() "
+               "other than len(multipliers) > 0", found=sorted(set(left_out))[:3] or None)
     chk.expect(okavg, "R-C20-2", "average_expected_demand averages over exactly one common period (lcm of all pattern lengths and 24 h) in steps of pattern_timestep", loc(aed), found=found_avg)
     chk.expect(okcat, "R-C20-2", "average_expected_demand forwards the category", loc(aed))
     pt = ex.sym("wn.options.time.pattern_timestep")
@@ -1091,6 +1132,13 @@ def run(repo, chk):
 
 
 WITNESSES = [
+    dict(name="unused-patterns-left-out-of-the-period", file=HYDM, old="    for name, pattern in wn.patterns():\n        if len(pattern.multipliers) > 0:  # an empty", new="    unused = wn.patterns.unused()\n    for name, pattern in wn.patterns():\n        if name in unused:\n            continue\n        if len(pattern.multipliers) > 0:  # an empty", rule="R-C20-2"),
+    dict(name="period-comprehension-with-name-filter", file=HYDM, old="    for name, pattern in wn.patterns():\n        if len(pattern.multipliers) > 0:  # an empty pattern is the constant 1.0 and has no period\n            L.append(len(pattern.multipliers)*wn.options.time.pattern_timestep)\n",
+         new="    L += [len(pattern.multipliers)*wn.options.time.pattern_timestep for name, pattern in wn.patterns() if len(pattern.multipliers) > 0 and not name.startswith('_')]\n", rule="R-C20-2"),
+    dict(name="quiet-period-comprehension", file=HYDM, silent=True, old="    for name, pattern in wn.patterns():\n        if len(pattern.multipliers) > 0:  # an empty pattern is the constant 1.0 and has no period\n            L.append(len(pattern.multipliers)*wn.options.time.pattern_timestep)\n",
+         new="    L += [len(pattern.multipliers)*wn.options.time.pattern_timestep for name, pattern in wn.patterns() if len(pattern.multipliers) > 0]\n"),
+    dict(name="quiet-period-loop-early-continue", file=HYDM, silent=True, old="        if len(pattern.multipliers) > 0:  # an empty pattern is the constant 1.0 and has no period\n            L.append(len(pattern.multipliers)*wn.options.time.pattern_timestep)\n",
+         new="        if len(pattern.multipliers) == 0:\n            continue\n        L.append(len(pattern.multipliers)*wn.options.time.pattern_timestep)\n"),
     dict(name="wsa-inf-for-zero-expected-demand", file=HYDM, old="    wsa = wsa.replace([np.inf, -np.inf], np.nan)  # expected demand 0: NaN, as documented\n", new="", rule="R-C20-4"),
     dict(name="expected-demand-overshoots-end-time", file=HYDM, old="    tsteps = tsteps[tsteps <= end_time]  # the last step does not pass end_time when the span is not a multiple of the timestep\n", new="", rule="R-C20-6"),
     dict(name="empty-pattern-zeroes-the-period", file=HYDM, old="        if len(pattern.multipliers) > 0:  # an empty pattern is the constant 1.0 and has no period\n            L.append(", new="        if True:\n            L.append(", rule="R-C20-6"),
